@@ -7,20 +7,24 @@ truth that the term itself carries (adm.truth: ordered visible tokens + boundary
 A case is the ADM document itself (plain JSON); `fmt` names format (+ writer variant).  Enumerated per format, restricted
 to the constructors the writer declares (CAPS):
 
-  S-family   every document whose *size* (blocks + inlines + list items + table cells + extra units) is <= S with
+  S-family   every document whose *size* (blocks + inlines + list items + table cells + extra units) is <= S, with
              <= NB blocks per block sequence (also items per list, rows per table, cells per row), <= W inlines per
              inline sequence, block nesting depth <= DB (list item / cell / text box contents), inline nesting <= DI
-             (link / content control contents) and <= U units.            quick: S=4 NB=2 W=2 DB=1 DI=1 U=2
-                                                                           thorough: S=5 NB=3 W=3 DB=2 DI=2 U=3
+             (link / content control contents) and <= U units - over the writer's full alphabet; and the same with the
+             larger size bound SC over the core alphabet (p h ul tbl pb / t tab br).
+                                   quick: S=4 SC=6 NB=2 W=2 DB=1 DI=1 U=2     thorough: S=5 SC=7 NB=3 W=3 DB=2 DI=2 U=3
+                                   (csv, json, odf, pdf: S and SC raised by S_BONUS - their writers express few constructors)
   C-family   "every constructor in every 1-block context": for every context (body paragraph, heading 1..3, list item,
-             nested list item, table cell, nested table cell, cell in item, item in cell, text box, box in cell) x every inline
-             constructor X (atoms, link, content control, text box): the paragraphs [X] [t X] [X t] [t X t]; and for every
-             block context x every block constructor Y: the sequences [Y] [p Y] [Y p] [p Y p].   thorough: also all
-             sequences of <= 3 inline constructors between two texts, and the contexts one level deeper.
+             nested list item, table cell, nested table cell, cell in item, item in cell, text box, box in cell ...) x every
+             inline constructor X (atoms, link, content control, text box): the paragraphs [X] [t X] [X t] [t X t]; and for
+             every block context x every block constructor Y (paragraph, empty paragraph, heading, lists, 1x1..2x2 tables,
+             empty cell, page break, image): the sequences [Y] [p Y] [Y p] [p Y p].  thorough: also all pairs / triples of
+             inline constructors between two texts, pairs of block constructors, and the contexts one level deeper.
   E-family   every non-empty subset of the hidden extras the format can carry (speaker notes, slide / document comments,
              page header, page footer) on 1- and 2-unit documents.
-  G-family   spreadsheets: every grid with <= R rows of 1..C cells, each cell empty or a string token, 1 sheet; all pairs
-             (thorough: triples) of small sheets.                            quick: R=C=2; thorough: R=C=3
+  G-family   spreadsheets (xlsx, ods, xls, csv): every grid with <= R rows of 1..C cells, each cell empty or a string token,
+             1 sheet; all pairs (thorough: also triples) of small sheets.           quick: R=C=2; thorough: R=C=3
+Terms that a writer cannot express (NotImplementedError) are skipped and counted as `inexpressible`.
 
 Oracle clauses (each is a fingerprint clause): lost, dup, order, merged, leak, invented  (see judge()).
 """
@@ -31,6 +35,7 @@ import json
 import os
 import random
 import re
+import zlib
 from functools import lru_cache
 
 from verif.gen import adm
@@ -58,10 +63,6 @@ def _png():
 
 
 # ====================================================================================================== formats
-
-def _one(gen):
-    return list(gen)
-
 
 def _text_of(results):
     return "\n".join(r.get_full_text() for r in results)
@@ -331,13 +332,6 @@ BOUNDS = {"quick": dict(S=4, SC=6, NB=2, W=2, DB=1, DI=1, U=2, R=2, C=2),
 # formats whose writers express only a small part of the alphabet get a larger size bound (more of the same family)
 S_BONUS = {"csv": 2, "json": 3, "odf": 2, "pdf": 1}
 CORE = {"unit", "multiunit", "p", "h", "ul", "ul-nested", "tbl", "tbl-nested", "t", "tab", "br", "pb"}
-
-
-def _tp(x):
-    """lists -> tuples (skeletons are hashable)"""
-    if isinstance(x, (list, tuple)):
-        return tuple(_tp(y) for y in x)
-    return x
 
 
 P_T = ("p", (("t",),))
@@ -694,12 +688,80 @@ def sheet_truth(doc, fmt):
     return {"visible": vis, "hidden": [], "dontcare": dc, "tabletoks": set()}
 
 
+def _visible(doc):
+    """Ordered visible tokens with the boundary class to their predecessor - adm.truth's rules with one refinement: an
+    anchored text box does not break the paragraph it is anchored in (text before and after the box is one run of text;
+    only text inside the box is a paragraph of its own)."""
+    rank = adm.BOUNDARY_RANK
+    vis = []
+    st = {"b": "unit"}
+
+    def bump(b):
+        if rank[b] > rank[st["b"]]:
+            st["b"] = b
+
+    def emit(tok):
+        if tok[0] in adm.VISIBLE_CLASSES:
+            vis.append((tok, st["b"]))
+            st["b"] = "none"
+
+    def inl(xs):
+        for x in xs:
+            k = x[0]
+            if k in ("t", "ins"):
+                emit(x[1])
+            elif k in ("tab", "br"):
+                bump(k)
+            elif k == "a":
+                inl(x[2])
+            elif k == "sdt":
+                inl(x[1])
+            elif k == "box":
+                outer, n0 = st["b"], len(vis)
+                bump("para")
+                blocks(x[1])
+                if len(vis) == n0:
+                    st["b"] = outer          # nothing visible inside: the surrounding run of text continues
+                else:
+                    bump("para")
+
+    def blocks(bs):
+        for b in bs:
+            k = b[0]
+            if k in ("p", "h"):
+                bump("para")
+                inl(b[-1])
+                bump("para")
+            elif k == "ul":
+                for it in b[1]:
+                    bump("para")
+                    blocks(it)
+                    bump("para")
+            elif k == "tbl":
+                for row in b[1]:
+                    bump("row")
+                    for cell in row:
+                        bump("cell")
+                        blocks(cell)
+                        bump("cell")
+                    bump("row")
+            else:
+                bump("para")
+    for u in doc[2]:
+        bump("unit")
+        blocks(u[1])
+        bump("unit")
+    return vis
+
+
 def truth_for(fmt, doc):
     base = fmt.split("+")[0]
     if doc[2] and doc[2][0][0] == "sheet":
         return sheet_truth(doc, fmt)
     tr = adm.truth(doc)
-    vis = list(tr["visible"])
+    vis = _visible(doc)
+    if [t for t, _ in vis] != [t for t, _ in tr["visible"]]:
+        raise AssertionError("C02 truth walker disagrees with adm.truth on the visible token sequence")
     tabletoks = set()
     if base in ("odp", "epub"):
         # documented: the tables of odp / epub are not part of the text, they are in iterate_tables()
@@ -740,7 +802,15 @@ PPT_MASTER_LINES = ("Click to edit Master title style", "Click to edit Master te
 
 
 def judge(fmt, doc, text, tabs, tr=None):
-    """-> (list of (clause, message), outcome class)"""
+    """The six clauses of C02 on one extraction -> (list of (clause, message), outcome class).
+    lost      a visible token occurs neither in get_full_text() (nor, for odp / epub table tokens, in an iterate_tables() cell)
+    dup       a visible token occurs more than once in the text (odp / epub table tokens: more than once in text or in cells)
+    order     first occurrences of the visible tokens are not in source order (ppt: documented title-first order)
+    merged    two neighbours with a tab / line-break / paragraph / cell / row / unit boundary in the source, each present exactly
+              once and in order, have no white-space character between them (csv: the field delimiter counts, raw content)
+    leak      a hidden token (deleted text, comment, speaker note, header / footer) occurs in the text
+    invented  text minus all source tokens (visible, hidden, don't care), minus link targets, minus note citation digits
+              (documents with footnotes), minus the ppt master prompts still contains a letter or digit"""
     tr = tr or truth_for(fmt, doc)
     clauses = _clauses(fmt)
     base = fmt.split("+")[0]
@@ -868,7 +938,21 @@ def evaluate(fmt, doc):
         if tr["visible"] and "lost" in _clauses(fmt):
             return [("lost", "extractor raised %s: %s - all visible text lost" % (type(e).__name__, str(e)[:200]))], "raises"
         return [], "raises-empty"
+    _LAST["sig"] = _signature(text, tabs)
     return judge(fmt, doc, text, tabs, tr)
+
+
+_LAST = {"sig": None}
+_WSRUN = re.compile(r"\s+")
+
+
+def _signature(text, tabs):
+    """layout of an output: tokens -> T, white-space runs -> their strongest character; used only to count distinct outputs"""
+    def ws(m):
+        g = m.group(0)
+        return "\n" if "\n" in g else ("\t" if "\t" in g else " ")
+    lay = _WSRUN.sub(ws, TOK.sub("T", text)) + "|%d" % len(tabs)
+    return zlib.crc32(lay.encode("utf-8", "replace")) * 4096 + (len(lay) & 4095)
 
 
 def reexec(fmt, case):
@@ -880,10 +964,6 @@ def reexec(fmt, case):
 
 
 # ====================================================================================================== shrinking / embedding
-
-def _is_blockseq(x):
-    return isinstance(x, list) and all(isinstance(b, list) and b and b[0] in ("p", "h", "ul", "tbl", "pb", "img") for b in x)
-
 
 def shrinks(doc):
     """Smaller well-formed ADM documents: drop a unit / block / inline / item / row / cell / extra / meta key, hoist the
@@ -969,7 +1049,9 @@ def _shrink_inl(xs):
     for i, x in enumerate(xs):
         k = x[0]
         pre, post = xs[:i], xs[i + 1:]
-        if k == "a":
+        if k == "ins":
+            yield pre + [["t", x[1]]] + post         # a plain run instead of a tracked insertion
+        elif k == "a":
             yield pre + x[2] + post
             for s in _shrink_inl(x[2]):
                 yield pre + [["a", x[1], s]] + post
@@ -1046,9 +1128,13 @@ def _part(arg):
     fails = []
     outcomes = {}
     samples = []
+    sigs = set()
     for i, doc in enumerate(cases_for(fmt, tier, seed, k, n)):
         try:
+            _LAST["sig"] = None
             f, oc = evaluate(fmt, doc)
+            if _LAST["sig"] is not None:
+                sigs.add(_LAST["sig"])
         except Exception as e:  # noqa - harness-side problem with one case: report it, do not crash the sweep
             fails.append(("harness", fmt, doc, "harness exception %s: %s" % (type(e).__name__, str(e)[:300])))
             continue
@@ -1059,9 +1145,13 @@ def _part(arg):
         outcomes[oc] = outcomes.get(oc, 0) + 1
         for clause, msg in f:
             fails.append((clause, fmt, doc, msg[:240]))
-        if len(samples) < 1 and i >= 7:
-            samples.append({"fmt": fmt, "case": doc, "outcome": oc})
-    return {"ev": ev, "skipped": skipped, "fails": fails, "outcomes": outcomes, "samples": samples}
+        if len(samples) < 1 and i >= 7 and k == 0:
+            try:
+                txt = _extract(fmt, _render(fmt, doc))[0]
+            except Exception as e:  # noqa
+                txt = "raised %s" % type(e).__name__
+            samples.append({"fmt": fmt, "case": doc, "full_text": txt[:200], "outcome": oc})
+    return {"ev": ev, "skipped": skipped, "fails": fails, "outcomes": outcomes, "samples": samples, "sigs": sigs}
 
 
 def _partitions(fmt, tier):
@@ -1084,7 +1174,7 @@ def run(ctx):
     res = P.run_all(MODULE, "_part", args, n=ctx.ncpu, hard_timeout=3000)
     ev = skipped = 0
     fails, herr, samples = [], [], []
-    outcomes, per_fmt = {}, {}
+    outcomes, per_fmt, sigs = {}, {}, {}
     for (st, r, _), a in zip(res, args):
         if st != "done":
             herr.append("partition %r failed: %s: %s" % (a, st, str(r)[-600:]))
@@ -1104,16 +1194,21 @@ def run(ctx):
             key = "%s:%s" % (a[1], k_)
             outcomes[key] = outcomes.get(key, 0) + v
         samples += r["samples"]
+        sigs.setdefault(a[1], set()).update(r["sigs"])
     samples = sorted(samples, key=lambda s: (s["fmt"], json.dumps(s["case"])))
     picked = []
     for s in samples:
         if s["fmt"] not in [p["fmt"] for p in picked]:
             picked.append(s)
     b = BOUNDS[ctx.tier]
-    cov = {"evaluations": ev, "distinct_nontrivial": len(outcomes), "exhaustive": True, "inexpressible_terms_skipped": skipped,
+    for f_, v in sigs.items():
+        per_fmt[f_]["distinct_output_layouts"] = len(v)
+    cov = {"evaluations": ev, "distinct_nontrivial": sum(len(v) for v in sigs.values()), "outcome_classes": len(outcomes), "exhaustive": True, "inexpressible_terms_skipped": skipped,
            "rule": "every ADM term of the S-, C-, E- (documents) and G- (spreadsheets) families within the tier bounds, restricted to each "
                    "writer's CAPS, rendered by the reference writer and extracted by the real extractor; evaluations = (format, term) pairs "
-                   "extracted and judged on all applicable clauses; distinct_nontrivial = distinct (format, set of failed clauses) outcome classes",
+                   "extracted and judged on all applicable clauses; distinct_nontrivial = distinct (format, output layout) pairs observed, a layout "
+                   "being the extracted text with tokens abstracted to T and every white-space run to its strongest character; outcome_classes = "
+                   "distinct (format, set of failed clauses)",
            "bounds": dict(b, S_bonus=S_BONUS), "per_format": per_fmt, "outcomes": dict(sorted(outcomes.items())), "samples": picked[:6]}
     return {"coverage": cov, "failures": fails, "harness_errors": herr, "assumptions": ASSUMPTIONS}
 
